@@ -295,9 +295,11 @@ def _bigstr_unit(tag, n, width):
 PINNED["big-string-tables"] = dict(
     # the table units come first and main has no string literal of its own (its format is a char array), so that
     # the first table's strings start at offset 0 of the merged-string input and the work-slice boundaries
-    # (multiples of 140032 = 64 * 2188) fall exactly on string starts
-    units=[("c", ["-O1", "-fpie"], _bigstr_unit("a", 2600, 64)),
-           ("c", ["-O1", "-fpie"], _bigstr_unit("b", 5000, 32)),
+    # (multiples of 140032 = 256 * 547) fall exactly on string starts
+    # strings shorter than 32 bytes go to .rodata.str1.1 (the alignment-1 sections are the ones wild splits into work
+    # slices); 16- and 8-byte strings divide the 256-byte block size, so slice boundaries are string starts
+    units=[("c", ["-O1", "-fpie"], _bigstr_unit("a", 9500, 16)),
+           ("c", ["-O1", "-fpie"], _bigstr_unit("b", 20000, 8)),
            ("c", ["-O1", "-fpie"], _bigstr_unit("c", 1500, 128)),
            ("c", ["-O1", "-fpie"], '#include <stdio.h>\nextern int check_a(unsigned long *), check_b(unsigned long *), check_c(unsigned long *);\n'
             'static const char fmt[] = "str m:bad = %d\\nstr m:sum = %lu\\n";\n'
